@@ -20,7 +20,25 @@ def none_i(v):
     return None if v == NONE_I else v
 
 
+# Array literals of one program are ONE object per distinct literal (the user's data table, defined once and used in
+# several calls): a call that modifies its array argument in place would change what the other calls denote.
+SHARED = {}
+
+
+def reset_shared():
+    SHARED.clear()
+
+
 def lit_value(l):
+    if l.get('sh') and l['lk'] in ('arr', 'arrF', 'arrT', 'arri'):
+        key = (l['lk'], tuple(tuple(x) for x in l['qs']), tuple(l['sh']))
+        if key not in SHARED:
+            SHARED[key] = _lit_value(l)
+        return SHARED[key]
+    return _lit_value(l)
+
+
+def _lit_value(l):
     lk = l['lk']
     qs = [q(x) for x in l['qs']]
     sh = l['sh']
@@ -40,6 +58,10 @@ def lit_value(l):
             return np.int64(int(v))
         if lk == 'npf32':
             return np.float32(float(v))
+        if lk == 'npu8':
+            return np.uint8(int(v))
+        if lk == 'npf16':
+            return np.float16(float(v))
         raise ValueError(lk)
     vals = [float(v) for v in qs]
     if lk == 'list':
